@@ -441,38 +441,38 @@ void h_ec_write(void)
 		int whole = g_wr_calls == 1 && g_wr_beg == 0 && g_wr_end == g_len;
 		/* C03: an error of the save surfaces: command fails, buffer stays dirty, mtime untouched */
 		if (g_wr_calls > 0 && (g_wr_ret || g_close_fail)) {
-			__CPROVER_assert(ret == 1, "ec_write: a failed write-out makes the command fail");
-			__CPROVER_assert(B.saved_calls == 0, "ec_write: a failed write never marks the buffer saved");
-			__CPROVER_assert(bufs[0].mtime == W.mtime0, "ec_write: a failed write leaves the recorded mtime alone");
+			H_ASSERT(ret == 1, "ec_write: a failed write-out makes the command fail");
+			H_ASSERT(B.saved_calls == 0, "ec_write: a failed write never marks the buffer saved");
+			H_ASSERT(bufs[0].mtime == W.mtime0, "ec_write: a failed write leaves the recorded mtime alone");
 		}
 		if (g_open_calls > 0 && !g_open_ok)
-			__CPROVER_assert(ret == 1 && B.saved_calls == 0 && bufs[0].mtime == W.mtime0,
+			H_ASSERT(ret == 1 && B.saved_calls == 0 && bufs[0].mtime == W.mtime0,
 				"ec_write: a failed open makes the command fail and keeps the buffer dirty");
 		/* C03: without '!' a foreign existing file, or a newer own file, is never opened for writing */
 		if (!W.force && g_st_exists && (!own || W.mtime0 <= 0 || g_st_mtime > W.mtime0))
-			__CPROVER_assert(g_open_calls == 0 && (ret == 1 || (cmd[0] == 'x' && !W.dirty0 && g_stat_calls == 0)),
+			H_ASSERT(g_open_calls == 0 && (ret == 1 || (cmd[0] == 'x' && !W.dirty0 && g_stat_calls == 0)),
 				"ec_write: refuses to clobber a foreign or newer file");
 		/* C02: the buffer is marked saved only for its own path, only after a successful save,
 		 * and only when the whole buffer was written */
 		if (B.saved_calls > 0 && B.saved_clear >= 0) {
-			__CPROVER_assert(ret == 0 && g_wr_calls == 1 && g_wr_ret == 0 && !g_close_fail && g_open_ok,
+			H_ASSERT(ret == 0 && g_wr_calls == 1 && g_wr_ret == 0 && !g_close_fail && g_open_ok,
 				"ec_write: buffer marked saved only after a successful save");
-			__CPROVER_assert(own, "ec_write: buffer marked saved only for its own path");
-			__CPROVER_assert(whole, "ec_write: buffer marked saved only after a write of the whole buffer");
-			__CPROVER_assert(B.saved_slot == 0, "ec_write: the current buffer is the one marked saved");
+			H_ASSERT(own, "ec_write: buffer marked saved only for its own path");
+			H_ASSERT(whole, "ec_write: buffer marked saved only after a write of the whole buffer");
+			H_ASSERT(B.saved_slot == 0, "ec_write: the current buffer is the one marked saved");
 		}
 		/* C02: after a successful partial write to the own path the buffer is dirty */
 		if (ret == 0 && g_wr_calls == 1 && own && !whole)
-			__CPROVER_assert(B.dirty[0], "ec_write: a partial write to the own file leaves the buffer dirty");
+			H_ASSERT(B.dirty[0], "ec_write: a partial write to the own file leaves the buffer dirty");
 		/* C02: a write to another path never changes the dirty state */
 		if (!own)
-			__CPROVER_assert(B.dirty[0] == W.dirty0 && bufs[0].mtime == W.mtime0,
+			H_ASSERT(B.dirty[0] == W.dirty0 && bufs[0].mtime == W.mtime0,
 				"ec_write: writing to another path leaves dirty state and mtime alone");
 		if (ret == 0 && g_wr_calls == 1 && own && whole)
-			__CPROVER_assert(B.saved_calls == 1 && !B.dirty[0], "ec_write: a successful whole-buffer write to the own path marks the buffer saved");
+			H_ASSERT(B.saved_calls == 1 && !B.dirty[0], "ec_write: a successful whole-buffer write to the own path marks the buffer saved");
 	}
 	if (ret == 1)
-		__CPROVER_assert(B.dirty[0] == W.dirty0, "ec_write: a failed command leaves the dirty state alone");
+		H_ASSERT(B.dirty[0] == W.dirty0, "ec_write: a failed command leaves the dirty state alone");
 #ifdef CANARY
 	__CPROVER_assert(0, "canary");
 #endif
@@ -558,31 +558,31 @@ void h_ec_quit(void)
 	 * the editor switches to the first dirty one */
 	if (!Q.has_a && !Q.has_bang && !xaw && !writes_first) {
 		if (first_dirty >= 0) {
-			__CPROVER_assert(xquit == 0, "ec_quit: refuses to quit while a buffer is dirty");
-			__CPROVER_assert(B.switch_calls == 1 && B.switch_idx == first_dirty, "ec_quit: switches to the first dirty buffer");
-			__CPROVER_assert(g_open_calls == 0, "ec_quit: a refused quit writes nothing");
+			H_ASSERT(xquit == 0, "ec_quit: refuses to quit while a buffer is dirty");
+			H_ASSERT(B.switch_calls == 1 && B.switch_idx == first_dirty, "ec_quit: switches to the first dirty buffer");
+			H_ASSERT(g_open_calls == 0, "ec_quit: a refused quit writes nothing");
 		} else {
-			__CPROVER_assert(xquit == 1 && B.switch_calls == 0, "ec_quit: quits when every buffer is clean");
+			H_ASSERT(xquit == 1 && B.switch_calls == 0, "ec_quit: quits when every buffer is clean");
 		}
 	}
 	/* C02: wq/x: a failed write aborts the quit; a buffer that is still dirty refuses it */
 	if (writes_first && !Q.has_a && !Q.has_bang && !xaw) {
 		if (ret == 1)
-			__CPROVER_assert(xquit == 0, "ec_quit: wq aborts when the write fails");
+			H_ASSERT(xquit == 0, "ec_quit: wq aborts when the write fails");
 		if (first_dirty > 0)
-			__CPROVER_assert(xquit == 0, "ec_quit: wq refuses to quit while another buffer is dirty");
+			H_ASSERT(xquit == 0, "ec_quit: wq refuses to quit while another buffer is dirty");
 		if (xquit == 1)
-			__CPROVER_assert(!B.dirty[0] && ret == 0, "ec_quit: wq quits only with the current buffer clean");
+			H_ASSERT(!B.dirty[0] && ret == 0, "ec_quit: wq quits only with the current buffer clean");
 	}
 	/* C03: xa / wqa: any failing save aborts the quit */
 	if (Q.has_a && !writes_first) {
 		if (g_close_fail || E.f_wr_fail_any || E.f_open_fail_any)
-			__CPROVER_assert(xquit == 0 && B.switch_calls == 1, "ec_quit: 'a' stops at the first buffer whose save fails");
+			H_ASSERT(xquit == 0 && B.switch_calls == 1, "ec_quit: 'a' stops at the first buffer whose save fails");
 	}
 	/* a forced quit always quits */
 	if (Q.has_bang && !Q.has_a && !writes_first)
-		__CPROVER_assert(xquit == 1, "ec_quit: q! quits");
-	__CPROVER_assert(ret == 0 || ret == 1, "ec_quit: returns 0 or 1");
+		H_ASSERT(xquit == 1, "ec_quit: q! quits");
+	H_ASSERT(ret == 0 || ret == 1, "ec_quit: returns 0 or 1");
 #ifdef CANARY
 	__CPROVER_assert(0, "canary");
 #endif
@@ -613,7 +613,7 @@ void h_ex_command(void)
 	/* whether the command list succeeded or failed, the command counter of the current buffer
 	 * is bumped exactly once, after the whole list: commands never share an undo step, and all
 	 * sub-commands of one list do */
-	__CPROVER_assert(B.mod_calls == 1, "ex_command: bumps the sequence counter exactly once per top-level command, also when the command fails");
+	H_ASSERT(B.mod_calls == 1, "ex_command: bumps the sequence counter exactly once per top-level command, also when the command fails");
 #ifdef CANARY
 	__CPROVER_assert(0, "canary");
 #endif
@@ -683,17 +683,17 @@ void h_bufs_switch(void)
 #undef SW_
 	}
 	/* a rotation: the named buffer comes to the front, those before it move down by one, the rest stay */
-	__CPROVER_assert(SAMEBUF(bufs[0], g_old[idx]), "bufs_switch: the buffer reached is the one named (slot idx comes to the front)");
+	H_ASSERT(SAMEBUF(bufs[0], g_old[idx]), "bufs_switch: the buffer reached is the one named (slot idx comes to the front)");
 	if (g_k >= 1 && g_k <= idx)
-		__CPROVER_assert(SAMEBUF(bufs[g_k], g_old[g_k - 1]), "bufs_switch: slots before idx move down by one, each keeping its text, position and file");
+		H_ASSERT(SAMEBUF(bufs[g_k], g_old[g_k - 1]), "bufs_switch: slots before idx move down by one, each keeping its text, position and file");
 	if (g_k > idx)
-		__CPROVER_assert(SAMEBUF(bufs[g_k], g_old[g_k]), "bufs_switch: slots after idx are untouched");
+		H_ASSERT(SAMEBUF(bufs[g_k], g_old[g_k]), "bufs_switch: slots after idx are untouched");
 	/* the view of the reached buffer is loaded */
-	__CPROVER_assert(xrow == g_old[idx].row && xoff == g_old[idx].off && xtop == g_old[idx].top &&
+	H_ASSERT(xrow == g_old[idx].row && xoff == g_old[idx].off && xtop == g_old[idx].top &&
 		xleft == g_old[idx].left && xtd == g_old[idx].td, "bufs_switch: cursor and window of the reached buffer are restored");
 	/* no line buffer is touched: no lbuf_* call at all */
-	__CPROVER_assert(B.mod_calls == 0 && B.saved_calls == 0, "bufs_switch: no buffer's dirty state is consulted or changed");
-	__CPROVER_assert(g_free_calls == g_free0 && g_make_calls == g_make0 && B.rd_calls == 0, "bufs_switch: no buffer is freed, created or re-read");
+	H_ASSERT(B.mod_calls == 0 && B.saved_calls == 0, "bufs_switch: no buffer's dirty state is consulted or changed");
+	H_ASSERT(g_free_calls == g_free0 && g_make_calls == g_make0 && B.rd_calls == 0, "bufs_switch: no buffer is freed, created or re-read");
 #ifdef CANARY
 	__CPROVER_assert(0, "canary");
 #endif
@@ -762,16 +762,16 @@ void h_bufs_find(void)
 	path[0] = nondet_char(); path[1] = 0;
 	__CPROVER_assume(path[0] != '/');	/* "/" is looked up as "" (the unnamed buffer) */
 	int r = bufs_find(path);
-	__CPROVER_assert(r >= -1 && r < 16, "bufs_find: slot index or -1");
+	H_ASSERT(r >= -1 && r < 16, "bufs_find: slot index or -1");
 	if (r >= 0)
-		__CPROVER_assert(bufs[r].path != 0 && strcmp(bufs[r].path, path) == 0, "bufs_find: the slot found holds the path asked for");
+		H_ASSERT(bufs[r].path != 0 && strcmp(bufs[r].path, path) == 0, "bufs_find: the slot found holds the path asked for");
 	if (bufs[g_k].path != 0 && strcmp(bufs[g_k].path, path) == 0)
-		__CPROVER_assert(r >= 0 && r <= g_k, "bufs_find: an open path is found (re-editing returns to the existing buffer), first match wins");
+		H_ASSERT(r >= 0 && r <= g_k, "bufs_find: an open path is found (re-editing returns to the existing buffer), first match wins");
 	int room = bufs_findroom();
-	__CPROVER_assert(0 <= room && room < 16, "bufs_findroom: a slot index");
-	__CPROVER_assert(bufs[room].lb == 0 || room == 15, "bufs_findroom: an empty slot, or the last slot when all 16 are in use");
+	H_ASSERT(0 <= room && room < 16, "bufs_findroom: a slot index");
+	H_ASSERT(bufs[room].lb == 0 || room == 15, "bufs_findroom: an empty slot, or the last slot when all 16 are in use");
 	if (g_k < room)
-		__CPROVER_assert(bufs[g_k].lb != 0, "bufs_findroom: the first empty slot");
+		H_ASSERT(bufs[g_k].lb != 0, "bufs_findroom: the first empty slot");
 	/* renumbering: ids 1..n in slot order */
 	bufs_number();
 	int n = 0;
@@ -779,9 +779,9 @@ void h_bufs_find(void)
 		if (bufs[k].lb) {
 			n++;
 			if (k == g_k)
-				__CPROVER_assert(bufs[k].id == n, "bufs_number: ids are dense and follow slot order");
+				H_ASSERT(bufs[k].id == n, "bufs_number: ids are dense and follow slot order");
 		}
-	__CPROVER_assert(bufs_cnt == n, "bufs_number: the id counter equals the number of open buffers");
+	H_ASSERT(bufs_cnt == n, "bufs_number: the id counter equals the number of open buffers");
 #ifdef CANARY
 	__CPROVER_assert(0, "canary");
 #endif
@@ -855,16 +855,16 @@ void h_ec_buffer(void)
 	int free0 = g_free_calls;
 	int ret = ec_buffer(loc, cmd, arg, 0);
 	if (want < 0) {
-		__CPROVER_assert(ret == 1 && B.switch_calls == 0, "ec_buffer: an unknown buffer is refused and nothing changes");
+		H_ASSERT(ret == 1 && B.switch_calls == 0, "ec_buffer: an unknown buffer is refused and nothing changes");
 	} else if (!bang && !xwa && !xaw && dirty0) {
 		/* C02 */
-		__CPROVER_assert(ret == 1 && B.switch_calls == 0, "ec_buffer: refuses to leave a modified buffer without '!'");
+		H_ASSERT(ret == 1 && B.switch_calls == 0, "ec_buffer: refuses to leave a modified buffer without '!'");
 	} else if (bang || xwa || !dirty0) {
-		__CPROVER_assert(ret == 0 && B.switch_calls == 1 && B.switch_idx == want, "ec_buffer: the buffer reached is the one named (number, +, -, alias)");
+		H_ASSERT(ret == 0 && B.switch_calls == 1 && B.switch_idx == want, "ec_buffer: the buffer reached is the one named (number, +, -, alias)");
 	}
-	__CPROVER_assert(B.saved_calls == 0, "ec_buffer: switching never marks a buffer saved");
-	__CPROVER_assert(B.rd_calls == 0, "ec_buffer: switching never re-reads a file");
-	__CPROVER_assert(g_free_calls == free0, "ec_buffer: switching never frees a buffer");
+	H_ASSERT(B.saved_calls == 0, "ec_buffer: switching never marks a buffer saved");
+	H_ASSERT(B.rd_calls == 0, "ec_buffer: switching never re-reads a file");
+	H_ASSERT(g_free_calls == free0, "ec_buffer: switching never frees a buffer");
 #ifdef CANARY
 	__CPROVER_assert(0, "canary");
 #endif
@@ -920,17 +920,17 @@ void h_ec_edit(void)
 	int ret = ec_edit(loc, cmd, arg, 0);
 	if (!bang && !xwa && !xaw && dirty0) {
 		/* C02 */
-		__CPROVER_assert(ret == 1 && B.switch_calls == 0 && B.rd_calls == 0 && g_open_calls == 0 && g_free_calls == free0 && B.saved_calls == 0,
+		H_ASSERT(ret == 1 && B.switch_calls == 0 && B.rd_calls == 0 && g_open_calls == 0 && g_free_calls == free0 && B.saved_calls == 0,
 			"ec_edit: refuses to leave a modified buffer without '!' and discards nothing");
 	} else if (B.pathexp_ret == 0) {
-		__CPROVER_assert(ret == 1 && B.switch_calls == 0 && B.rd_calls == 0, "ec_edit: an unusable path changes nothing");
+		H_ASSERT(ret == 1 && B.switch_calls == 0 && B.rd_calls == 0, "ec_edit: an unusable path changes nothing");
 	} else if ((bang || xwa || !dirty0) && pathbuf[0] && open_at >= 0) {
 		/* C20: re-editing an already open path returns to the existing buffer instead of re-reading the file */
-		__CPROVER_assert(B.rd_calls == 0 && g_open_calls == 0, "ec_edit: an already open path is not read again");
-		__CPROVER_assert(B.saved_calls == 0 && g_free_calls == free0 && g_make_calls == 0, "ec_edit: switching to an open buffer neither resets its history nor frees or creates a buffer");
-		__CPROVER_assert(B.switch_calls >= 1 && bufs[0].lb == target, "ec_edit: the buffer reached is the one holding the path");
+		H_ASSERT(B.rd_calls == 0 && g_open_calls == 0, "ec_edit: an already open path is not read again");
+		H_ASSERT(B.saved_calls == 0 && g_free_calls == free0 && g_make_calls == 0, "ec_edit: switching to an open buffer neither resets its history nor frees or creates a buffer");
+		H_ASSERT(B.switch_calls >= 1 && bufs[0].lb == target, "ec_edit: the buffer reached is the one holding the path");
 	} else if ((bang || xwa || !dirty0) && pathbuf[0] && open_at < 0) {
-		__CPROVER_assert(g_make_calls == 1 && B.rd_calls <= 1 && B.saved_calls == 1 && B.saved_slot == slot_of(bufs[0].lb) ,
+		H_ASSERT(g_make_calls == 1 && B.rd_calls <= 1 && B.saved_calls == 1 && B.saved_slot == slot_of(bufs[0].lb) ,
 			"ec_edit: a new path gets a new buffer, read once and marked saved");
 	}
 #ifdef CANARY
@@ -1138,13 +1138,13 @@ void h_ec_insert(void)
 	if (rr) { B.region_beg = nondet_int(); B.region_end = nondet_int(); rb = B.region_beg; re = B.region_end; }
 	int ret = ec_insert(loc, cmd, arg, txt);
 	if (rr && !(rb == 0 && re == 0)) {
-		__CPROVER_assert(ret == 1 && X.calls == 0, "ec_insert: an address that does not resolve is rejected with the buffer unchanged");
+		H_ASSERT(ret == 1 && X.calls == 0, "ec_insert: an address that does not resolve is rejected with the buffer unchanged");
 	} else {
 		int p = cmd[0] == 'a' ? re : rb;
 		int q = cmd[0] == 'c' ? re : p;
-		__CPROVER_assert(ret == 0 && X.calls == 1 && X.txt == txt, "ec_insert: exactly one splice, of the text given");
-		__CPROVER_assert(X.beg == p && X.end == q, "ec_insert: append after the last addressed line, insert before the first, change replaces exactly the range (address 0 = before the first line)");
-		__CPROVER_assert(xrow == (g_len - 1 < q + g_len - X.len0 - 1 ? g_len - 1 : q + g_len - X.len0 - 1), "ec_insert: the current line becomes the last line of the inserted text");
+		H_ASSERT(ret == 0 && X.calls == 1 && X.txt == txt, "ec_insert: exactly one splice, of the text given");
+		H_ASSERT(X.beg == p && X.end == q, "ec_insert: append after the last addressed line, insert before the first, change replaces exactly the range (address 0 = before the first line)");
+		H_ASSERT(xrow == (g_len - 1 < q + g_len - X.len0 - 1 ? g_len - 1 : q + g_len - X.len0 - 1), "ec_insert: the current line becomes the last line of the inserted text");
 	}
 #ifdef CANARY
 	__CPROVER_assert(0, "canary");
@@ -1167,14 +1167,14 @@ void h_ec_delete_yank(void)
 	int puts0 = B.regput_calls;
 	int ret = is_del ? ec_delete(loc, cmd, arg, 0) : ec_yank(loc, cmd, arg, 0);
 	if (rr || X.len0 == 0) {
-		__CPROVER_assert(ret == 1 && X.calls == 0 && B.regput_calls == puts0, "ec_delete/ec_yank: an address that does not resolve is rejected, buffer and registers unchanged");
+		H_ASSERT(ret == 1 && X.calls == 0 && B.regput_calls == puts0, "ec_delete/ec_yank: an address that does not resolve is rejected, buffer and registers unchanged");
 	} else {
-		__CPROVER_assert(ret == 0 && B.regput_calls == puts0 + 1, "ec_delete/ec_yank: the addressed lines go to the register once");
+		H_ASSERT(ret == 0 && B.regput_calls == puts0 + 1, "ec_delete/ec_yank: the addressed lines go to the register once");
 		if (is_del) {
-			__CPROVER_assert(X.calls == 1 && X.txt == 0 && X.beg == rb && X.end == re, "ec_delete: exactly one splice removing exactly the addressed range");
-			__CPROVER_assert(xrow == rb, "ec_delete: the current line is the line after the deleted range");
+			H_ASSERT(X.calls == 1 && X.txt == 0 && X.beg == rb && X.end == re, "ec_delete: exactly one splice removing exactly the addressed range");
+			H_ASSERT(xrow == rb, "ec_delete: the current line is the line after the deleted range");
 		} else {
-			__CPROVER_assert(X.calls == 0, "ec_yank: never changes the buffer");
+			H_ASSERT(X.calls == 0, "ec_yank: never changes the buffer");
 		}
 	}
 #ifdef CANARY
@@ -1195,10 +1195,10 @@ void h_ec_put(void)
 	int rb = B.region_beg, re = B.region_end, rr = B.region_ret;
 	int ret = ec_put(loc, cmd, arg, 0);
 	if (rr || !X.reg_buf) {
-		__CPROVER_assert(ret == 1 && X.calls == 0, "ec_put: an empty register or an address that does not resolve is rejected with the buffer unchanged");
+		H_ASSERT(ret == 1 && X.calls == 0, "ec_put: an empty register or an address that does not resolve is rejected with the buffer unchanged");
 	} else {
-		__CPROVER_assert(ret == 0 && X.calls == 1 && X.txt == X.reg_buf && X.beg == re && X.end == re, "ec_put: the register text is inserted after the last addressed line, nothing is removed");
-		__CPROVER_assert(xrow == (g_len - 1 < re + g_len - X.len0 - 1 ? g_len - 1 : re + g_len - X.len0 - 1), "ec_put: the current line becomes the last line put");
+		H_ASSERT(ret == 0 && X.calls == 1 && X.txt == X.reg_buf && X.beg == re && X.end == re, "ec_put: the register text is inserted after the last addressed line, nothing is removed");
+		H_ASSERT(xrow == (g_len - 1 < re + g_len - X.len0 - 1 ? g_len - 1 : re + g_len - X.len0 - 1), "ec_put: the current line becomes the last line put");
 	}
 #ifdef CANARY
 	__CPROVER_assert(0, "canary");
@@ -1227,14 +1227,14 @@ void h_ec_mark_lnum(void)
 	if (nondet_bool()) {
 		int ret = ec_mark(loc, cmd, arg, 0);
 		if (rr)
-			__CPROVER_assert(ret == 1 && X.mark_calls == 0, "ec_mark: an address that does not resolve sets no mark");
+			H_ASSERT(ret == 1 && X.mark_calls == 0, "ec_mark: an address that does not resolve sets no mark");
 		else
-			__CPROVER_assert(ret == 0 && X.mark_calls == 1 && X.mark == (unsigned char) arg[0] && X.mark_pos == re - 1, "ec_mark: marks the last addressed line");
+			H_ASSERT(ret == 0 && X.mark_calls == 1 && X.mark == (unsigned char) arg[0] && X.mark_pos == re - 1, "ec_mark: marks the last addressed line");
 	} else {
 		int ret = ec_lnum(loc, cmd, arg, 0);
-		__CPROVER_assert(rr ? (ret == 1 && B.print_calls == prints0) : (ret == 0 && B.print_calls == prints0 + 1), "ec_lnum: prints once for a valid address, nothing otherwise");
+		H_ASSERT(rr ? (ret == 1 && B.print_calls == prints0) : (ret == 0 && B.print_calls == prints0 + 1), "ec_lnum: prints once for a valid address, nothing otherwise");
 	}
-	__CPROVER_assert(X.calls == 0, "ec_mark/ec_lnum: never change the buffer");
+	H_ASSERT(X.calls == 0, "ec_mark/ec_lnum: never change the buffer");
 #ifdef CANARY
 	__CPROVER_assert(0, "canary");
 #endif
@@ -1471,10 +1471,10 @@ void h_ec_substitute(void)
 	int rr = B.region_ret;
 	int ret = ec_substitute(loc, cmd, arg, 0);
 	if (rr)
-		__CPROVER_assert(ret == 1 && S.edits == 0 && S.lines_seen == 0, "ec_substitute: an address that does not resolve is rejected with the buffer unchanged");
-	__CPROVER_assert(S.sb_live == 0, "ec_substitute: every string buffer made is freed");
-	__CPROVER_assert(!S.bad, "ec_substitute: the output is the line with matches replaced: every other byte copied verbatim, in order");
-	__CPROVER_assert(S.edits <= S.lines_seen, "ec_substitute: at most one splice per addressed line");
+		H_ASSERT(ret == 1 && S.edits == 0 && S.lines_seen == 0, "ec_substitute: an address that does not resolve is rejected with the buffer unchanged");
+	H_ASSERT(S.sb_live == 0, "ec_substitute: every string buffer made is freed");
+	H_ASSERT(!S.bad, "ec_substitute: the output is the line with matches replaced: every other byte copied verbatim, in order");
+	H_ASSERT(S.edits <= S.lines_seen, "ec_substitute: at most one splice per addressed line");
 #ifdef CANARY
 	__CPROVER_assert(0, "canary");
 #endif
@@ -1528,10 +1528,10 @@ void h_replace_bounded(void)
 			p += 1;
 		}
 	}
-	__CPROVER_assert(R.n == wn, "replace: the expansion has the length the statement gives (\\0-\\9 group text, empty when unset; \\c = c)");
+	H_ASSERT(R.n == wn, "replace: the expansion has the length the statement gives (\\0-\\9 group text, empty when unset; \\c = c)");
 	for (k = 0; k < 24; k++)
 		if (k < wn)
-			__CPROVER_assert(R.out[k] == want[k], "replace: the expansion is byte for byte what the statement gives");
+			H_ASSERT(R.out[k] == want[k], "replace: the expansion is byte for byte what the statement gives");
 #ifdef CANARY
 	__CPROVER_assert(0, "canary");
 #endif
@@ -1664,18 +1664,18 @@ void h_ec_glob(void)
 	int mods0 = B.mod_calls;
 	int ret = ec_glob(loc, cmd, arg, 0);
 	if (rr) {
-		__CPROVER_assert(ret == 1 && GW.tested == 0 && !GW.any_exec, "ec_glob: an address that does not resolve is rejected, nothing runs");
+		H_ASSERT(ret == 1 && GW.tested == 0 && !GW.any_exec, "ec_glob: an address that does not resolve is rejected, nothing runs");
 	}
-	__CPROVER_assert(xgdep == dep0, "ec_glob: the nesting depth is restored");
-	__CPROVER_assert(B.mod_calls == mods0, "ec_glob: no sequence bump inside the global: all its edits form one undo step");
-	__CPROVER_assert(GW.tested <= 1 && GW.execs <= 1, "ec_glob: a line is visited at most once");
-	__CPROVER_assert(GW.execs <= GW.tested, "ec_glob: the command list runs on a line only when that line was just tested");
+	H_ASSERT(xgdep == dep0, "ec_glob: the nesting depth is restored");
+	H_ASSERT(B.mod_calls == mods0, "ec_glob: no sequence bump inside the global: all its edits form one undo step");
+	H_ASSERT(GW.tested <= 1 && GW.execs <= 1, "ec_glob: a line is visited at most once");
+	H_ASSERT(GW.execs <= GW.tested, "ec_glob: the command list runs on a line only when that line was just tested");
 	if (GW.kind >= 2)
-		__CPROVER_assert(GW.tested == 0, "ec_glob: lines outside the range and lines inserted by the command list are never visited");
+		H_ASSERT(GW.tested == 0, "ec_glob: lines outside the range and lines inserted by the command list are never visited");
 	if (!rr && S.re_ok && ret == 0 && !GW.broke && GW.kind <= 1 && GW.alive && rb < re)
-		__CPROVER_assert(GW.tested == 1, "ec_glob: every line of the original range that still exists is visited (none skipped)");
+		H_ASSERT(GW.tested == 1, "ec_glob: every line of the original range that still exists is visited (none skipped)");
 	if (GW.alive && ret == 0)
-		__CPROVER_assert(!GW.marked, "ec_glob: all marks of this depth are cleared on exit");
+		H_ASSERT(!GW.marked, "ec_glob: all marks of this depth are cleared on exit");
 #ifdef CANARY
 	__CPROVER_assert(0, "canary");
 #endif
@@ -1704,12 +1704,12 @@ void h_bufs_shift(void)
 	int cnt0 = bufs_cnt;
 	bufs_shift();
 	/* exactly the current buffer is released, every other open buffer keeps its text, file, id and position and moves up one slot */
-	__CPROVER_assert(g_old[0].lb ? (g_free_calls == 1 && g_free_last == g_old[0].lb) : g_free_calls == 0, "bufs_shift: the current buffer, and only it, is released");
-	__CPROVER_assert(SAMEBUF(bufs[g_k], g_old[g_k + 1]), "bufs_shift: every other slot moves up by one, keeping its text, position, file and id");
-	__CPROVER_assert(bufs[15].lb == 0 && bufs[15].path == 0, "bufs_shift: the last slot becomes free");
-	__CPROVER_assert(xrow == g_old[1].row && xoff == g_old[1].off && xtop == g_old[1].top && xleft == g_old[1].left && xtd == g_old[1].td, "bufs_shift: cursor and window of the buffer that becomes current are restored");
-	__CPROVER_assert(bufs_cnt == cnt0, "bufs_shift: the id counter is not wound back (ids handed out later stay distinct from those of open buffers)");
-	__CPROVER_assert(B.mod_calls == 0 && B.saved_calls == 0 && B.rd_calls == 0, "bufs_shift: no other buffer's dirty state or text is consulted or changed");
+	H_ASSERT(g_old[0].lb ? (g_free_calls == 1 && g_free_last == g_old[0].lb) : g_free_calls == 0, "bufs_shift: the current buffer, and only it, is released");
+	H_ASSERT(SAMEBUF(bufs[g_k], g_old[g_k + 1]), "bufs_shift: every other slot moves up by one, keeping its text, position, file and id");
+	H_ASSERT(bufs[15].lb == 0 && bufs[15].path == 0, "bufs_shift: the last slot becomes free");
+	H_ASSERT(xrow == g_old[1].row && xoff == g_old[1].off && xtop == g_old[1].top && xleft == g_old[1].left && xtd == g_old[1].td, "bufs_shift: cursor and window of the buffer that becomes current are restored");
+	H_ASSERT(bufs_cnt == cnt0, "bufs_shift: the id counter is not wound back (ids handed out later stay distinct from those of open buffers)");
+	H_ASSERT(B.mod_calls == 0 && B.saved_calls == 0 && B.rd_calls == 0, "bufs_shift: no other buffer's dirty state or text is consulted or changed");
 #ifdef CANARY
 	__CPROVER_assert(0, "canary");
 #endif
